@@ -151,6 +151,8 @@ pub struct Sim {
     /// status informations of a successful reservation, in order: 'R' carries the receipt number the reservation is booked
     /// under, 'N' carries none, 'X' carries a provisional number that is not booked (only in front of 'R'). Default "R".
     pub status_script: String,
+    /// amounts reported by the status informations of a reservation, cycled (empty: the requested amount is echoed)
+    pub status_amounts: Vec<u64>,
     /// reply packets (after the ack) for ReadCard, built by the check
     pub card_replies: Vec<Vec<u8>>,
     /// status-information packets sent for a PartialReversal (before the completion), built by the check; empty = one default
@@ -185,6 +187,7 @@ impl Sim {
             intermediates: 0,
             intermediate_body: None,
             status_script: "R".into(),
+            status_amounts: vec![],
             card_replies: vec![],
             reversal_status: vec![],
             chatter: vec![],
@@ -397,8 +400,9 @@ fn respond(g: &mut Sim, kind: Kind, apdu: &[u8], d: &Directive) -> Vec<Vec<u8>> 
                 None => (0, None, None),
             };
             g.ledger.push(PreAuth { receipt: rc, amount, currency, reference });
-            for shape in g.status_script.clone().chars() {
-                let mut set = vec![("result_code", opt_u(Some(0))), ("amount", opt_u(Some(amount))), ("trace_number", opt_u(Some(g.receipts_issued as u64))), ("currency", opt_u(currency))];
+            for (si, shape) in g.status_script.clone().chars().enumerate() {
+                let reported = if g.status_amounts.is_empty() { amount } else { g.status_amounts[si % g.status_amounts.len()] };
+                let mut set = vec![("result_code", opt_u(Some(0))), ("amount", opt_u(Some(reported))), ("trace_number", opt_u(Some(g.receipts_issued as u64))), ("currency", opt_u(currency))];
                 match shape {
                     'R' if d.outcome != Outcome::NoReceipt => set.push(("receipt_no", opt_u(Some(rc)))),
                     'X' if d.outcome != Outcome::NoReceipt => set.push(("receipt_no", opt_u(Some((rc + 4998) % 9999 + 1)))),
